@@ -194,12 +194,23 @@ def _delegate(model, cls, h):
         if len(body) != 1 or not isinstance(body[0], _ast.Return) or not isinstance(body[0].value, _ast.Call):
             return h
         c = body[0].value
-        if not (isinstance(c.func, _ast.Attribute) and isinstance(c.func.value, _ast.Name) and c.func.value.id == h.pos_params[0] and not c.keywords):
+        if c.keywords:
             return h
-        if [getattr(a, "id", None) for a in c.args] != h.pos_params[1:]:
+        own = h.pos_params[1:] if h.cls is not None else h.pos_params
+        if [getattr(a, "id", None) for a in c.args] != own:
             return h
-        g = model.find_method(cls, c.func.attr)
-        if g is None or len(g.pos_params) != len(h.pos_params):
+        if isinstance(c.func, _ast.Attribute) and isinstance(c.func.value, _ast.Name) and h.cls is not None and c.func.value.id == h.pos_params[0]:
+            g = model.find_method(cls, c.func.attr)
+            if g is None or len(g.pos_params) != len(h.pos_params):
+                return h
+        elif isinstance(c.func, _ast.Name):
+            # .. or to a module-level function taking the same (value, selector)
+            from .model import FuncInfo as _FI
+
+            g = model.lookup_target(model.resolve_dotted(h.module, h, c.func.id))
+            if not isinstance(g, _FI) or g.cls is not None or len(g.pos_params) != len(own):
+                return h
+        else:
             return h
         h = g
     return h
